@@ -457,6 +457,11 @@ func run(c Case, dir string, res *lib.Result) (ret string) {
 			defer cancel2()
 			err2 := w.rc.ImageCopy(ctx2, w.srcRef, w.tgtRef, opts...)
 			res.Count(fmt.Sprintf("again:%s:ok=%v", c.Pair, err2 == nil))
+			if os.Getenv("VH_DEBUG") != "" {
+				for _, rc := range w.rt.Records() {
+					fmt.Printf("REQ2 %d %s %s %s?%s -> %d\n", rc.N, rc.Host, rc.Method, rc.Path, rc.Query, rc.Status)
+				}
+			}
 			if err2 != nil {
 				if ctx2.Err() == nil {
 					res.Fail("second-copy-fails pair="+c.Pair, fmt.Sprintf("after a copy with injected faults, a second copy through the same client with no fault failed: %v", err2), c)
